@@ -713,6 +713,21 @@ def run_seq(c: Dict[str, Any]) -> str:
         return f"EXC {type(ex).__name__} @step {k} {what}"
 
 
+def minimise_seq(c: Dict[str, Any], budget: int = 60) -> Dict[str, Any]:
+    """a failing sequence with as few steps as a greedy one-step-at-a-time removal finds (for the report only)"""
+    def fails(steps):
+        return not run_seq(dict(c, steps=steps)).startswith("seq ")
+    steps = [list(x) for x in c["steps"]]
+    i, runs = len(steps) - 2, 0          # the last step is the failing one after truncation: keep it
+    while i >= 0 and runs < budget:
+        cand = steps[:i] + steps[i + 1:]
+        runs += 1
+        if fails(cand):
+            steps = cand
+        i -= 1
+    return dict(c, steps=steps)
+
+
 # ------------------------------------------------------------------------------------------------------
 # the property
 # ------------------------------------------------------------------------------------------------------
@@ -949,7 +964,15 @@ class C04(Prop):
         if c["kind"] == "seq":
             if out.startswith("seq "):
                 return None
-            hist = "; ".join(("compile " if op == 0 else f"evaluate[binding set {w}] ") + repr(c["texts"][i]) for op, i, w in c["steps"])
+            steps = c["steps"]
+            if " @step " in out:
+                try:
+                    k = int(out.split(" @step ")[1].split()[0])
+                    steps = minimise_seq(dict(c, steps=steps[:k + 1]))["steps"]
+                    c["_minimal_steps"] = steps
+                except Exception:
+                    pass
+            hist = "; ".join(("compile " if op == 0 else f"evaluate[binding set {w}] ") + repr(c["texts"][i]) for op, i, w in steps)
             if "BADPOS" in out:
                 return f"runner {c['runner']}, {c.get('n_env', 1)} Environment(s), steps: {hist}: CELParseError position outside the text ({out})"
             if "RENDER" in out:
